@@ -153,6 +153,37 @@ def direct_cases(rng):
     add("TT(source)", "unsupported source type", True, lambda: torchtt.TT("abc"))
     add("TT(dense, shape)", "element count mismatch", False, lambda: torchtt.TT(one(2, 3), [4, 2]))
     add("TT(dense, op shape)", "element count mismatch", False, lambda: torchtt.TT(one(2, 3, 2, 3), [(2, 2), (3, 4)]))
+    # a dense source with an integer MULTIPLE of the requested number of entries (a forgotten mode): never absorbed silently
+    for src_shape, shp in (((4, 6), [2, 3]), ((2, 3, 5), [2, 3]), ((12,), [2, 3]), ((4, 6), [3, 4]), ((2, 2, 3, 3), [(2, 3)])):
+        add("TT(dense, shape)", "source %s has a multiple of the entries of shape %s" % (src_shape, shp), False, lambda a=src_shape, b_=shp: torchtt.TT(one(*a), b_))
+        add("TT(numpy, shape)", "source %s has a multiple of the entries of shape %s" % (src_shape, shp), False, lambda a=src_shape, b_=shp: torchtt.TT(one(*a).numpy(), b_))
+    # wrong number of indices, operands that only einsum's broadcasting would accept, shapes that are not what the entry point documents
+    Aop = TM(rng, [3, 4], [3, 4]); xv = T(rng, [3, 4]); x3 = T(rng, [3, 4, 2])
+    add("TTM[...]", "odd number of indices (order 1)", False, lambda: TM(rng, [3], [4])[0, 1, 0])
+    add("TTM[...]", "odd number of indices (order 2)", False, lambda Aop=Aop: Aop[0, 1, 0, 1, 2])
+    add("fast_matvec", "operand with a size-1 mode (only broadcasting would accept it)", False, lambda Aop=Aop: Aop.fast_matvec(T(rng, [3, 1]), use_cpp=False))
+    add("fast_matvec", "operand with more modes", False, lambda Aop=Aop, x3=x3: Aop.fast_matvec(x3, use_cpp=False))
+    add("fast_matvec", "mode-size mismatch", False, lambda Aop=Aop: Aop.fast_matvec(T(rng, [3, 5]), use_cpp=False))
+    add("amen_mm", "second operator with a size-1 row mode", False, lambda Aop=Aop: torchtt.amen_mm(Aop, TM(rng, [1, 4], [2, 3]), nswp=2))
+    add("amen_mm", "inner mode-size mismatch", False, lambda Aop=Aop: torchtt.amen_mm(Aop, TM(rng, [3, 5], [2, 3]), nswp=2))
+    add("amen_mm", "second operand is a TT tensor", False, lambda Aop=Aop, xv=xv: torchtt.amen_mm(Aop, xv, nswp=2))
+    add("amen_mm", "second operand is not a TT", False, lambda Aop=Aop: torchtt.amen_mm(Aop, torch.ones(3, 4), nswp=2))
+    add("dot(axis)", "second operand with a size-1 mode along axis", False, lambda x3=x3: torchtt.dot(x3, T(rng, [1]), [1]))
+    add("dot(axis)", "second operand with more modes than axis", False, lambda x3=x3: torchtt.dot(x3, T(rng, [3, 4], 1), [0]))
+    add("dot(axis)", "axis longer than the second operand", False, lambda x3=x3: torchtt.dot(x3, T(rng, [3]), [0, 1]))
+    add("dot(axis)", "mode-size mismatch along axis", True, lambda x3=x3: torchtt.dot(x3, T(rng, [5]), [1]))
+    add("apply_mask", "index rows with more columns than modes", False, lambda x3=x3: x3.apply_mask(torch.tensor([[0, 0, 0, 0], [1, 1, 1, 1]])))
+    add("apply_mask", "index rows with fewer columns than modes", False, lambda x3=x3: x3.apply_mask(torch.tensor([[0, 0], [1, 1]])))
+    add("reshape", "negative mode sizes with the right product", False, lambda: torchtt.reshape(T(rng, [2, 3]), [-2, -3]))
+    add("reshape", "a zero mode size", False, lambda: torchtt.reshape(T(rng, [2, 3]), [0, 6]))
+    add("to_qtt", "a mode that is not a power of two", True, lambda xv=xv: xv.to_qtt())
+    add("to_qtt", "a mode that is not a power of mode_size", True, lambda: T(rng, [4, 9]).to_qtt(mode_size=3))
+    import numpy as _np
+    for nm_, f_ in (("array * TT", lambda xv=xv: _np.array([1.0, 2.0]) * xv), ("array + TT", lambda xv=xv: _np.array([1.0, 2.0]) + xv), ("array - TT", lambda xv=xv: _np.array([1.0, 2.0]) - xv)):
+        add(nm_, "a numpy array with several elements on the left", False, f_)
+    # to_qtt of operators: every mode must be square, not only the totals
+    for shp in ([(2, 4), (4, 2)], [(1, 4), (4, 1)], [(4, 2), (2, 2), (2, 4)], [(2, 4), (2, 2)], [(2, 8)]):
+        add("to_qtt", "operator with a non-square mode %s" % (shp,), True, lambda shp=shp: torchtt.ones(shp, dtype=torch.float64).to_qtt())
     return C
 
 def run(tier, seed, replay=None):
